@@ -96,6 +96,9 @@ def floors(tier: str) -> dict[str, int]:
         "analysis_pairs": 500 * k,
         "analysis_pairs:suspend": 150 * k,  # loaders whose async path really suspends
         "analysis_pairs:fs": 60 * k,
+        "analysis_pairs:route": 50 * k,  # loaders that route on the load context (tag=..., context)
+        "analysis_pairs:route-suspend": 50 * k,
+        "cases_with:deep-selector": 150 * k,  # bracketed selectors nested 2-4 levels deep
         "cases_with:reader-after-binder": 150 * k,
         "cases_with:scoped-partial": 100 * k,
         "facts:lookups": 8_000 * k,
@@ -213,9 +216,22 @@ def report(ctx: Ctx, case: dict[str, Any], res: list[tuple[str, str, dict[str, A
 
 
 def pick_loader(*parts: Any) -> str:
-    """dict 40 % / suspending dict 42 % / file system 18 %, a pure function of the case id."""
+    """suspending dict 30 % / file system 14 % / tag-routing 12 % / tag-routing + suspending 12 % /
+    plain dict 32 %, a pure function of the case id."""
     x = random.Random(":".join(map(str, parts))).random()
-    return "suspend" if x < 0.42 else ("fs" if x < 0.60 else "dict")
+    for lim, kind in ((0.30, "suspend"), (0.44, "fs"), (0.56, "route"), (0.68, "route-suspend")):
+        if x < lim:
+            return kind
+    return "dict"
+
+
+def add_decoys(case: dict[str, Any]) -> None:
+    """For a tag-routing loader: under the plain name of every other partial sits a DIFFERENT
+    template; a caller that forgets the load context analyses that one (the rest are not found)."""
+    if case.get("loader") in ("route", "route-suspend"):
+        parts = sorted(case.get("partials") or ())
+        case["decoys"] = {n: "{{ decoy_%d | upcase }}{%% assign decoy = %d %%}<decoy of %s>" % (i, i, n)
+                          for i, n in enumerate(parts) if i % 2 == 0}
 
 
 class _CaseBudget(BaseException):
@@ -251,7 +267,7 @@ def _run(ctx: Ctx, chk: MON.Checker, case: dict[str, Any], origin: Any) -> None:
     ctx.count("cases")
     for f in case.get("features") or ():
         ctx.seen("features", f)
-        if f in ("reader-after-binder", "scoped-partial"):
+        if f in ("reader-after-binder", "scoped-partial", "deep-selector"):
             ctx.count("cases_with:" + f)
     if res:
         report(ctx, case, res, origin)
@@ -270,6 +286,9 @@ def _own(spec: dict[str, Any], ctx: Ctx, dynamic: bool = False) -> None:
             case["features"].append("no-for-tag")
         case["datasets"] = g.datasets(DATASETS)
         case["loader"] = pick_loader(spec["seed"], "loader", spec["kind"], spec["i"], j)
+        if dynamic and case["loader"].startswith("route"):
+            case["loader"] = "suspend"
+        add_decoys(case)
         _run(ctx, chk, case, [spec["kind"], spec["seed"], spec["i"], j])
         last = case
         if j < 2 and spec["i"] == 0:
@@ -350,7 +369,9 @@ def _shared(spec: dict[str, Any], ctx: Ctx) -> None:
         case = {"templates": templates, "root": root, "dynamic": False,
                 "binders": sorted(model_binders(prog)), "datasets": datas,
                 "loader": pick_loader(spec["seed"], "loader", "shared", spec["i"], j),
+                "partials": sorted(em.partials),
                 "features": ["shared-generator", "shared:comments-layout"]}
+        add_decoys(case)
         _run(ctx, chk, case, ["shared", spec["seed"], spec["i"], j])
         if j == 0 and spec["i"] == 0:
             ctx.sample({"kind": "shared", "root": root, "templates": templates})
@@ -458,6 +479,7 @@ HAND: list[tuple[str, dict[str, str], str]] = [
 ]
 
 
+RE_PARTIAL_LITERAL = re.compile(r"(?:include|render)\s*['\"]([^'\"]+)['\"]")
 RE_FOR = re.compile(r"(?:\{%[-+~]?|\n)\s*for\s+[\w-]+\s+in\b")
 RE_TABLEROW = re.compile(r"(?:\{%[-+~]?|\n)\s*tablerow\s")
 RE_MACRO = re.compile(r"(?:\{%[-+~]?|\n)\s*macro\s")
@@ -493,7 +515,22 @@ PROBES_PENDING_DECISION: set[str] = set()
 
 # (n, what the seeding agent says, templates, root, data) -- checked on the unchanged tree; the
 # verdicts go to the evidence (set `probe_results`, notes), see SCOPE_MISMATCH_IS_VIOLATION
-PROBES: list[tuple[str, str, dict[str, str], str, dict[str, Any], set[str]]] = [
+PROBES: list[tuple] = [
+    # -- round 6.  In (12) and (13) NOTHING binds the name in any execution of that render, so the
+    # property's clause applies as it did for `render ... for` over a non-sequence (seed 4A).
+    ("12", "for block scope covers the else block: forloop in `else` (empty iterable) is a global lookup",
+     {"t": "{% for x in y %}{{ x }}{% else %}{{ forloop.length }}{% endfor %}"}, "t", {"y": [], "forloop": {"length": "G"}},
+     {"x"}, {"mechanism": "for-scope-covers-the-else-block"}),
+    ("13", "lambda parameters beyond the second are never bound at run time",
+     {"t": "{{ items | map: (x, i, z) => z | join: ',' }}"}, "t", {"items": [1, 2], "z": "G"},
+     {"x", "i"}, {"mechanism": "lambda-parameter-beyond-the-second"}),
+    ("14", "assign inside a block tag is added to the template scope (blocks render in a copied context)",
+     {"t": "{% block c %}{% assign q = 1 %}{% endblock %}{{ q }}"}, "t", {"q": "G"}, {"q", "block"}),
+    ("16", "the static context always carries the ROOT template: a loader resolving names relative to "
+           "context.template loads another partial for analysis than for the render",
+     {"pages/index": "{% include 'a/one' %}", "a/one": "{% include 'two' %}", "a/two": "{{ x }}",
+      "two": "{{ y | upcase }}"}, "pages/index", {"x": 1, "y": "s"}, set(),
+     {"loader": "relative", "mechanism": "static-context-template-is-the-root"}),
     ("2", "for block scope covers the else branch",
      {"t": "{% for i in y %}{% else %}{{ i }}{% endfor %}"}, "t", {"y": [], "i": "G"}, {"i", "forloop"}),
     ("3", "capture name is in scope inside its own block",
@@ -544,9 +581,12 @@ def _probe_nested_root(ctx: Ctx) -> None:
 def _probes(spec: dict[str, Any], ctx: Ctx) -> None:
     chk = MON.Checker(ctx)
     _probe_nested_root(ctx)
-    for n, label, templates, root, data, binders in PROBES:
+    for n, label, templates, root, data, binders, *extra in PROBES:
+        opts = extra[0] if extra else {}
         case = {"templates": templates, "root": root, "dynamic": False, "binders": sorted(binders),
-                "datasets": [data], "loader": "dict", "features": ["probe:" + n]}
+                "datasets": [data], "loader": opts.get("loader", "dict"), "features": ["probe:" + n]}
+        if opts.get("mechanism"):
+            case["mechanism"] = opts["mechanism"]
         res = MON.run_case(chk, case)
         ctx.count("cases")
         diag = [f"{d['name']!r} at {d['template'][0]}[{d['start']}:{d['stop']}] ({d['via']}, in {d['node']})"
@@ -568,9 +608,12 @@ def _hand(spec: dict[str, Any], ctx: Ctx) -> None:
     for label, templates, root in HAND:
         datas = [G.make_data(rng, v) for v in range(DATASETS)]
         binders = HAND_EXPLICIT | certain_implicit_binders(templates)
+        parts = sorted({m for src in templates.values() for m in RE_PARTIAL_LITERAL.findall(src)})
         for lk in MON.LOADER_KINDS:
             case = {"templates": templates, "root": root, "dynamic": False, "binders": sorted(binders),
-                    "datasets": datas, "loader": lk, "features": ["hand:" + label, "loader:" + lk]}
+                    "datasets": datas, "loader": lk, "partials": parts,
+                    "features": ["hand:" + label, "loader:" + lk]}
+            add_decoys(case)
             _run(ctx, chk, case, ["hand", label, lk])
     ctx.sample({"kind": "hand", "templates": HAND[0][1]})
 
